@@ -1,7 +1,7 @@
 (* C11 — proofs about the CVXPY interface maps: they denote the operator of quara's own variable -> object
    conversion (generic ordered field, axiom-free); the dense instrument map does not (refutation). *)
 From Coq Require Import Arith List Bool Lia Field Ring Setoid.
-From QV.Core Require Import OF Sums Mat Cplx.
+From QV.Core Require Import OF Sums Mat Cplx C01_HermPsd.
 From QV.Model Require Import QObj C11_Cvx.
 Import ListNotations.
 
@@ -128,13 +128,41 @@ Proof. intros Hi Hj. unfold C11_mp_choi_sp. rewrite C11_bbcT_reshape by assumpti
   - cbn [Nat.mul Nat.add]. destruct (Nat.ltb_spec b (d * d)); [reflexivity|lia].
   - destruct (Nat.ltb_spec (S a' * (d * d) + b) (d * d)); [nia|]. f_equal. nia. Qed.
 
-(* ------------------------------------------------------------------ the dense instrument map is wrong for the last outcome *)
-(* at var = 0 the coded expression is the zero matrix whereas the instrument element of quara's variable has the
+(* T8c in one statement *)
+Lemma C11_sp_all_ok d m c sd B :
+  (forall var i j, (i < d)%nat -> (j < d)%nat ->
+     C11_dmat_sp F d c B var i j = mT (op_of_vec d B (C11_state_vec F c var)) i j)
+  /\ (forall var x i j, (i < d)%nat -> (j < d)%nat ->
+     C11_povm_sp F d m sd B var x i j = mT (op_of_vec d B (C11_povm_vec F (d * d) m sd var x)) i j)
+  /\ (forall var i j, (i < d * d)%nat -> (j < d * d)%nat ->
+     C11_choi_sp F d B var i j = mT (choi_of_hs d B (C11_gate_hs F (d * d) var)) i j)
+  /\ (forall var x i j, (i < d * d)%nat -> (j < d * d)%nat ->
+     C11_mp_choi_sp F d m B var x i j = mT (choi_of_hs d B (C11_mp_hs F (d * d) m var x)) i j).
+Proof. split; [intros; now apply C11_dmat_sp_ok|]. split; [intros; now apply C11_povm_sp_ok|].
+  split; [intros; now apply C11_choi_sp_ok|intros; now apply C11_mp_choi_sp_ok]. Qed.
+
+(* ------------------------------------------------------------------ the dense instrument map
+   T8d  after fix mprocess-element-choi-from-var-last-outcome the dense map denotes the Choi matrix of the instrument
+        element of quara's variable, for EVERY outcome *)
+Lemma C11_mp_choi_from_var_ok d m B var x i j :
+  C11_mp_choi_from_var F d m B var x i j = choi_of_hs d B (C11_mp_hs F (d * d) m var x) i j.
+Proof. unfold C11_mp_choi_from_var. apply C11_choi_of_hs_ext. intros a b Ha Hb. unfold C11_mp_vec_sp, C11_mp_hs.
+  destruct (S x <? m)%nat. { f_equal. lia. }
+  destruct a as [|a'].
+  - cbn [Nat.mul Nat.add]. destruct (Nat.ltb_spec b (d * d)); [reflexivity|lia].
+  - destruct (Nat.ltb_spec (S a' * (d * d) + b) (d * d)); [nia|]. f_equal. nia. Qed.
+(* hence the dense and the _with_sparsity expressions are transposes of each other *)
+Lemma C11_mp_choi_sp_dense d m B var x i j : (i < d * d)%nat -> (j < d * d)%nat ->
+  C11_mp_choi_sp F d m B var x i j = mT (C11_mp_choi_from_var F d m B var x) i j.
+Proof. intros Hi Hj. rewrite C11_mp_choi_sp_ok by assumption. unfold mT. symmetry. apply C11_mp_choi_from_var_ok. Qed.
+
+(* ------------------------------------------------------------------ the function AS CODED BEFORE the fix is wrong for the last outcome *)
+(* at var = 0 the old expression is the zero matrix whereas the instrument element of quara's variable has the
    HS matrix e_0 e_0^T, whose Choi matrix is B_0 (x) conj B_0 *)
-Lemma C11_mp_coded_at_zero d m B i j : C11_mp_choi_from_var F d m B (fun _ => 0) (m - 1) i j = c0 Cx.
-Proof. unfold C11_mp_choi_from_var, choi_of_hs. apply C11_sumn_zero_cx; intros a _. apply C11_sumn_zero_cx; intros b _.
-  assert (E : C11_mp_vec_coded F (d * d) m (fun _ => 0) (m - 1) (a * (d * d) + b)%nat = 0).
-  { unfold C11_mp_vec_coded. destruct (S (m - 1) <? m)%nat; [reflexivity|].
+Lemma C11_mp_before_fix_at_zero d m B i j : C11_mp_choi_from_var_before_fix F d m B (fun _ => 0) (m - 1) i j = c0 Cx.
+Proof. unfold C11_mp_choi_from_var_before_fix, choi_of_hs. apply C11_sumn_zero_cx; intros a _. apply C11_sumn_zero_cx; intros b _.
+  assert (E : C11_mp_vec_before_fix F (d * d) m (fun _ => 0) (m - 1) (a * (d * d) + b)%nat = 0).
+  { unfold C11_mp_vec_before_fix. destruct (S (m - 1) <? m)%nat; [reflexivity|].
     destruct (a * (d * d) + b <? d * d)%nat; [|reflexivity]. apply sumn_zero'. reflexivity. }
   rewrite E. apply C11_zof_0_mul. Qed.
 Lemma C11_mp_ref_at_zero d m B i j : (0 < d)%nat ->
@@ -151,13 +179,24 @@ Proof. intros Hd. unfold choi_of_hs.
       - replace (1 - 0) with 1 by ring. apply C11_zof_1_mul.
       - replace (0 - 0) with 0 by ring. apply C11_zof_0_mul. }
   rewrite (sumn_delta (d * d) 0%nat (fun b => bbc d B 0%nat b i j)) by nia. ring. Qed.
-Lemma C11_mp_coded_refuted d m B i j : (0 < d)%nat -> bbc d B 0%nat 0%nat i j <> c0 Cx ->
-  C11_mp_choi_from_var F d m B (fun _ => 0) (m - 1) i j
+Lemma C11_mp_before_fix_refuted d m B i j : (0 < d)%nat -> bbc d B 0%nat 0%nat i j <> c0 Cx ->
+  C11_mp_choi_from_var_before_fix F d m B (fun _ => 0) (m - 1) i j
   <> choi_of_hs d B (C11_mp_hs F (d * d) m (fun _ => 0) (m - 1)) i j.
-Proof. intros Hd Hne. rewrite C11_mp_coded_at_zero, C11_mp_ref_at_zero by exact Hd. congruence. Qed.
-(* for the other outcomes the dense map is right *)
-Lemma C11_mp_coded_ok_inner d m B var x i j : (S x < m)%nat ->
-  C11_mp_choi_from_var F d m B var x i j = choi_of_hs d B (C11_mp_hs F (d * d) m var x) i j.
-Proof. intros Hx. unfold C11_mp_choi_from_var. apply C11_choi_of_hs_ext. intros a b _ _.
-  unfold C11_mp_vec_coded, C11_mp_hs. destruct (Nat.ltb_spec (S x) m); [|lia]. f_equal. lia. Qed.
+Proof. intros Hd Hne. rewrite C11_mp_before_fix_at_zero, C11_mp_ref_at_zero by exact Hd. congruence. Qed.
+(* for the other outcomes the old code was right *)
+Lemma C11_mp_before_fix_ok_inner d m B var x i j : (S x < m)%nat ->
+  C11_mp_choi_from_var_before_fix F d m B var x i j = choi_of_hs d B (C11_mp_hs F (d * d) m var x) i j.
+Proof. intros Hx. unfold C11_mp_choi_from_var_before_fix. apply C11_choi_of_hs_ext. intros a b _ _.
+  unfold C11_mp_vec_before_fix, C11_mp_hs. destruct (Nat.ltb_spec (S x) m); [|lia]. f_equal. lia. Qed.
+(* ------------------------------------------------------------------ `M >> 0` and `M^T >> 0` are the same constraint:
+   Re (x^dagger M^T x) = Re (conj(x)^dagger M conj(x))  for EVERY complex matrix M, so the _with_sparsity expressions
+   (transposes of the object's operator, T8c) put exactly the physical inequality constraint *)
+Lemma C11_hqf_transpose n (H : cmat F) (x : cvec F) : hqf n (mT H) x = hqf n H (fun i => zconj (x i)).
+Proof. rewrite !hqf_expand. rewrite sumn_swap. apply sumn_ext; intros i _. apply sumn_ext; intros j _.
+  unfold mT. destruct (x i) as [a b], (x j) as [c e], (H i j) as [p q]. cbn. ring. Qed.
+Lemma C11_transpose_hpsd n (H : cmat F) : HPSD n (mT H) <-> HPSD n H.
+Proof. split; intros P x.
+  - pose proof (P (fun i => zconj (x i))) as A. rewrite C11_hqf_transpose in A.
+    erewrite hqf_ext; [exact A|apply meq_refl|]. intros i _. symmetry. apply zconj_conj.
+  - rewrite C11_hqf_transpose. apply P. Qed.
 End C11_CvxProofs.
